@@ -15,7 +15,7 @@ Lemma rejected_call_is_identity k s o s' :
   step k s o = (s', Rej) -> s' = s.
 Proof.
   destruct o; cbn [step]; unfold do_find, do_begin, do_end, do_bound, do_deref, do_inc, do_dec, do_addat, do_rmat,
-    do_rmrange, do_reset, do_chk, do_insert, do_rmkey, do_rmif, do_clear, do_reserve, do_merge, do_swap; cbv zeta;
+    do_rmrange, do_reset, do_chk, do_insert, do_rmkey, do_rmif, do_clear, do_reserve, do_merge, do_swap, do_moveassign, do_copyassign; cbv zeta;
   dmatch; intro H; inversion H; reflexivity.
 Qed.
 
@@ -255,6 +255,54 @@ Ltac inv_tac I :=
         | apply Inv_put_swap; [exact I|mono_tac|mono_tac]
         | apply Inv_swap; exact I ].
 
+(* assignment: the destination's crew is replaced (by the source's, or by a fresh one) and the handles into the destroyed crew are dropped *)
+Lemma newcrew_gt s : (crew (w0 s) < newcrew s)%nat /\ (crew (w1 s) < newcrew s)%nat.
+Proof. unfold newcrew. lia. Qed.
+Lemma Inv_assign s (a' b' : cont) (dead : nat) :
+  Inv s ->
+  (* the new pair of containers: one of them is an OLD container kept as it is (same crew, version, keys), the other has a fresh crew *)
+  forall keep fresh_c : cont, forall (swap : bool),
+  (keep = w0 s \/ keep = w1 s) -> dead = (if Nat.eqb (crew keep) (crew (w0 s)) then crew (w1 s) else crew (w0 s)) ->
+  crew fresh_c = newcrew s ->
+  Inv (if swap then mkS keep fresh_c (drop_crew s dead) else mkS fresh_c keep (drop_crew s dead)).
+Proof.
+  intros I keep fresh_c swap Hk Hd Hf. pose proof (inv_crews _ I) as D. destruct (newcrew_gt s) as (G0 & G1).
+  assert (CK : crew keep = crew (w0 s) \/ crew keep = crew (w1 s)) by (destruct Hk; subst; auto).
+  assert (NF : crew fresh_c <> crew keep) by (destruct CK as [E|E]; rewrite E, Hf; lia).
+  (* facts about a surviving handle *)
+  assert (SV : forall j cr, hcrew (drop_crew s dead j) = Some cr -> drop_crew s dead j = hs s j /\ cr = crew keep /\ cr <> dead).
+  { intros j cr. unfold drop_crew. destruct (hcrew (hs s j)) as [c|] eqn:HC; [|rewrite HC; discriminate].
+    destruct (Nat.eqb_spec c dead) as [E|E]; [discriminate|]. rewrite HC. intros H; inversion H; subst c.
+    split; [reflexivity|]. split; [|exact E].
+    destruct (inv_snap _ I j cr HC) as (v & Hv & _). unfold ver_of_crew in Hv.
+    destruct (Nat.eqb_spec (crew (w0 s)) cr) as [E0|E0].
+    - subst cr. destruct CK as [E1|E1]; [congruence|]. exfalso. apply E. subst dead.
+      destruct (Nat.eqb_spec (crew keep) (crew (w0 s))); congruence.
+    - destruct (Nat.eqb_spec (crew (w1 s)) cr) as [E1|E1]; [|discriminate]. subst cr.
+      destruct CK as [E2|E2]; [|congruence]. exfalso. apply E. subst dead. rewrite E2, Nat.eqb_refl. reflexivity. }
+  assert (KV : forall cr, cr = crew keep -> ver_of_crew s cr = Some (ver keep) /\ owner s cr = keep).
+  { intros cr E. subst cr. unfold ver_of_crew, owner. destruct Hk; subst keep.
+    - rewrite Nat.eqb_refl. auto.
+    - destruct (Nat.eqb_spec (crew (w0 s)) (crew (w1 s))); [congruence|]. rewrite Nat.eqb_refl. auto. }
+  destruct swap; constructor; simpl.
+  - congruence.
+  - intros j cr H. destruct (SV j cr H) as (E & Ec & _). rewrite E. destruct (KV cr Ec) as (V & _).
+    destruct (inv_snap _ I j cr ltac:(rewrite <- E; exact H)) as (v & Hv & L). rewrite V in Hv. inversion Hv; subst v.
+    exists (ver keep). split; [|exact L]. unfold ver_of_crew; simpl. subst cr. rewrite Nat.eqb_refl. reflexivity.
+  - intros j cr H F. destruct (SV j cr H) as (E & Ec & _). rewrite E in *. destruct (KV cr Ec) as (V & O).
+    pose proof (inv_acc _ I j cr H) as A. rewrite V, O in A.
+    unfold ver_of_crew, owner in *; simpl in *. subst cr. rewrite Nat.eqb_refl in *. apply A. exact F.
+  - congruence.
+  - intros j cr H. destruct (SV j cr H) as (E & Ec & _). rewrite E. destruct (KV cr Ec) as (V & _).
+    destruct (inv_snap _ I j cr ltac:(rewrite <- E; exact H)) as (v & Hv & L). rewrite V in Hv. inversion Hv; subst v.
+    exists (ver keep). split; [|exact L]. unfold ver_of_crew; simpl. subst cr.
+    destruct (Nat.eqb_spec (crew fresh_c) (crew keep)); [congruence|]. rewrite Nat.eqb_refl. reflexivity.
+  - intros j cr H F. destruct (SV j cr H) as (E & Ec & _). rewrite E in *. destruct (KV cr Ec) as (V & O).
+    pose proof (inv_acc _ I j cr H) as A. rewrite V, O in A.
+    unfold ver_of_crew, owner in *; simpl in *. subst cr.
+    destruct (Nat.eqb_spec (crew fresh_c) (crew keep)); [congruence|]. rewrite Nat.eqb_refl in *. apply A. exact F.
+Qed.
+
 Lemma step_inv k s o : Inv s -> Inv (fst (step k s o)).
 Proof.
   intros I. destruct o; cbn [step].
@@ -296,6 +344,19 @@ Proof.
   - unfold do_swap; cbn [fst]. apply (Inv_swap s I).
   - cbn [fst]; exact I.
   - cbn [fst]; exact I.
+  - unfold do_moveassign; cbv zeta; cbn [fst]. pose proof (inv_crews _ I) as D. destruct src; cbn [getc negb].
+    + (* source = w1: destination w0 takes w1, source becomes fresh *)
+      apply (Inv_assign s (w1 s) (w1 s) (crew (w0 s)) I (w1 s) (empty_cont (newcrew s)) true); auto.
+      destruct (Nat.eqb_spec (crew (w1 s)) (crew (w0 s))); [congruence|reflexivity].
+    + apply (Inv_assign s (w0 s) (w0 s) (crew (w1 s)) I (w0 s) (empty_cont (newcrew s)) false); auto.
+      rewrite Nat.eqb_refl. reflexivity.
+  - unfold do_copyassign; cbv zeta; cbn [fst]. pose proof (inv_crews _ I) as D. destruct src; cbn [getc negb].
+    + apply (Inv_assign s (w1 s) (w1 s) (crew (w0 s)) I (w1 s) (copy_cont k (newcrew s) (w1 s)) false); auto.
+      * destruct (Nat.eqb_spec (crew (w1 s)) (crew (w0 s))); [congruence|reflexivity].
+      * unfold copy_cont. destruct (keys (w1 s)); [reflexivity|destruct k; reflexivity].
+    + apply (Inv_assign s (w0 s) (w0 s) (crew (w1 s)) I (w0 s) (copy_cont k (newcrew s) (w0 s)) true); auto.
+      * rewrite Nat.eqb_refl. reflexivity.
+      * unfold copy_cont. destruct (keys (w0 s)); [reflexivity|destruct k; reflexivity].
 Qed.
 
 (* ---------- versions are monotone ---------- *)
@@ -346,9 +407,10 @@ Ltac ext_tac I :=
         | apply ext_put_swap; [exact I|mono_tac|mono_tac]
         | apply ext_swap; exact I ].
 
-Lemma step_ext k s o : Inv s -> ext s (fst (step k s o)).
+Definition is_assign (o : op) : bool := match o with OMoveAssign _ | OCopyAssign _ => true | _ => false end.
+Lemma step_ext k s o : Inv s -> is_assign o = false -> ext s (fst (step k s o)).
 Proof.
-  intros I. destruct o; cbn [step];
+  intros I NA. destruct o; try discriminate NA; cbn [step];
   unfold do_find, do_begin, do_end, do_bound, do_deref, do_inc, do_dec, do_addat, do_rmat,
     do_rmrange, do_reset, do_chk, do_insert, do_rmkey, do_rmif, do_clear, do_reserve, do_merge, merge_each, do_swap, tree_end;
   cbv zeta; dmatch; cbn [fst snd]; ext_tac I.
@@ -363,10 +425,10 @@ Proof.
 Qed.
 Lemma run_inv k ops : forall s, Inv s -> Inv (run k s ops).
 Proof. induction ops as [|o t IH]; intros s I; simpl; auto. apply IH, step_inv, I. Qed.
-Lemma run_ext k ops : forall s, Inv s -> ext s (run k s ops).
+Lemma run_ext k ops : forall s, Inv s -> Forall (fun o => is_assign o = false) ops -> ext s (run k s ops).
 Proof.
-  induction ops as [|o t IH]; intros s I; simpl; [apply ext_refl|].
-  eapply ext_trans; [apply (step_ext k s o I)|apply IH, step_inv, I].
+  induction ops as [|o t IH]; intros s I F; simpl; [apply ext_refl|]. inversion F; subst.
+  eapply ext_trans; [apply (step_ext k s o I); auto|apply IH; [apply step_inv, I|auto]].
 Qed.
 
 Definition reachable (k : kind) (s : state) : Prop := exists ops, s = run k init ops.
@@ -375,9 +437,9 @@ Proof. intros (ops & E); subst. apply run_inv, init_inv. Qed.
 
 (* versions never decrease, along any history from any reachable state *)
 Lemma versions_monotone k s ops cr v :
-  reachable k s -> ver_of_crew s cr = Some v ->
+  reachable k s -> Forall (fun o => is_assign o = false) ops -> ver_of_crew s cr = Some v ->
   exists v', ver_of_crew (run k s ops) cr = Some v' /\ (v <= v')%nat.
-Proof. intros R H. apply (run_ext k ops s (reachable_inv k s R) cr v H). Qed.
+Proof. intros R F H. apply (run_ext k ops s (reachable_inv k s R) F cr v H). Qed.
 
 (* ---------- stale handles ---------- *)
 Definition stale (s : state) (h : handle) : Prop :=
@@ -426,11 +488,14 @@ Definition writes (o : op) (i : nat) : bool :=
   match o with
   | OFind _ _ j | OBegin _ j | OEnd _ j | OLower _ _ j | OUpper _ _ j | OInc j | ODec j
   | OAddAt _ j _ | OInsert _ _ j => Nat.eqb j i
+  | OMoveAssign _ | OCopyAssign _ => true      (* an assignment destroys a version cell: every handle into it is dropped *)
   | _ => false
   end.
+Lemma writes_false_not_assign o i : writes o i = false -> is_assign o = false.
+Proof. destruct o; simpl; auto; discriminate. Qed.
 Lemma hs_unwritten k s o i : writes o i = false -> hs (fst (step k s o)) i = hs s i.
 Proof.
-  destruct o; cbn [step writes]; intros W;
+  destruct o; cbn [step writes]; intros W; try discriminate W;
   unfold do_find, do_begin, do_end, do_bound, do_deref, do_inc, do_dec, do_addat, do_rmat,
     do_rmrange, do_reset, do_chk, do_insert, do_rmkey, do_rmif, do_clear, do_reserve, do_merge, merge_each, do_swap, tree_end;
   cbv zeta; dmatch; cbn [fst snd]; rewrite ?hs_setc; simpl; rewrite ?hs_setc; try rewrite Nat.eqb_sym, W; try reflexivity.
@@ -443,7 +508,7 @@ Proof.
   intros I S W. rewrite (hs_unwritten k s o i W). unfold stale in *.
   destruct (hcrew (hs s i)) as [cr|] eqn:HC; [|tauto].
   destruct (inv_snap _ I i cr HC) as (v & Hv & Hle).
-  destruct (step_ext k s o I cr v Hv) as (v' & Hv' & Hle'). rewrite Hv'. rewrite Hv in S.
+  destruct (step_ext k s o I (writes_false_not_assign o i W) cr v Hv) as (v' & Hv' & Hle'). rewrite Hv'. rewrite Hv in S.
   intros E; inversion E; subst. apply S. f_equal. lia.
 Qed.
 
@@ -455,7 +520,7 @@ Lemma modification_makes_stale k s o i cr :
 Proof.
   intros I HC W D. rewrite (hs_unwritten k s o i W). unfold stale. rewrite HC.
   destruct (inv_snap _ I i cr HC) as (v & Hv & Hle).
-  destruct (step_ext k s o I cr v Hv) as (v' & Hv' & Hle'). rewrite Hv' in *. rewrite Hv in D.
+  destruct (step_ext k s o I (writes_false_not_assign o i W) cr v Hv) as (v' & Hv' & Hle'). rewrite Hv' in *. rewrite Hv in D.
   intros E; inversion E; subst. apply D. f_equal. lia.
 Qed.
 
@@ -654,17 +719,17 @@ Fixpoint steps_keep (k : kind) (s : state) (ops : list op) (cr : nat) : Prop :=
   | o :: t => ver_of_crew (fst (step k s o)) cr = ver_of_crew s cr /\ steps_keep k (fst (step k s o)) t cr
   end.
 Lemma version_unchanged_iff_no_bumping_step k ops : forall s cr v,
-  Inv s -> ver_of_crew s cr = Some v ->
+  Inv s -> Forall (fun o => is_assign o = false) ops -> ver_of_crew s cr = Some v ->
   (ver_of_crew (run k s ops) cr = Some v <-> steps_keep k s ops cr).
 Proof.
-  induction ops as [|o t IH]; intros s cr v I Hv; simpl; [tauto|].
-  destruct (step_ext k s o I cr v Hv) as (v1 & Hv1 & L1).
+  induction ops as [|o t IH]; intros s cr v I F Hv; simpl; [tauto|]. inversion F as [|? ? NA F']; subst.
+  destruct (step_ext k s o I NA cr v Hv) as (v1 & Hv1 & L1).
   pose proof (step_inv k s o I) as I1.
-  destruct (run_ext k t _ I1 cr v1 Hv1) as (v2 & Hv2 & L2).
+  destruct (run_ext k t _ I1 F' cr v1 Hv1) as (v2 & Hv2 & L2).
   split.
   - intros E. rewrite Hv2 in E. inversion E; subst. assert (v1 = v) by lia. subst v1.
-    split; [congruence|]. apply (IH _ cr v I1 Hv1). congruence.
-  - intros (E1 & K). rewrite Hv in E1. apply (IH _ cr v I1 E1). exact K.
+    split; [congruence|]. apply (IH _ cr v I1 F' Hv1). congruence.
+  - intros (E1 & K). rewrite Hv in E1. apply (IH _ cr v I1 F' E1). exact K.
 Qed.
 
 (* The code's accepted-set, exactly: a handle to an element (not re-assigned meanwhile) is accepted by a read IF AND ONLY IF
@@ -680,7 +745,9 @@ Lemma accepted_iff_no_bump k s c i key ops :
 Proof.
   intros R HC HS HP FW s'. pose proof (reachable_inv k s R) as I.
   pose proof (run_unwritten k ops i s FW) as Hh. fold s' in Hh.
-  pose proof (version_unchanged_iff_no_bumping_step k ops s _ _ I (ver_of_crew_getc s c I)) as V. fold s' in V.
+  assert (FA : Forall (fun o => is_assign o = false) ops).
+  { clear -FW. induction FW; constructor; auto. eapply writes_false_not_assign; eauto. }
+  pose proof (version_unchanged_iff_no_bumping_step k ops s _ _ I FA (ver_of_crew_getc s c I)) as V. fold s' in V.
   assert (D : step k s' (ODeref i) = (s', Acc (Some key)) \/ step k s' (ODeref i) = (s', Rej)).
   { cbn [step]. unfold do_deref. rewrite Hh, HP. destruct (chk_self s' (hs s i)); auto. }
   assert (A : step k s' (ODeref i) = (s', Acc (Some key)) <-> ver_of_crew s' (crew (getc s c)) = Some (ver (getc s c))).
@@ -701,3 +768,59 @@ Example noop_clear_invalidates :
   snd (step KHash (run KHash init pre) (OAddAt false 1 7)) = Acc None /\
   snd (step KHash (run KHash init (pre ++ [OClear false false])) (OAddAt false 1 7)) = Rej.
 Proof. vm_compute. repeat split. Qed.
+
+(* ---------- assignment ---------- *)
+(* move-assignment: the destination IS the source afterwards (same version cell, version, contents) and every handle of the source is
+   untouched, hence exactly as valid for the destination as it was for the source; the moved-from source is a fresh empty container;
+   handles into the destination's destroyed cell are dropped *)
+Lemma move_assign_source_handles_follow k s src i :
+  Inv s -> hcrew (hs s i) = Some (crew (getc s src)) ->
+  let s' := fst (step k s (OMoveAssign src)) in
+  getc s' (negb src) = getc s src /\ hs s' i = hs s i /\ keys (getc s' src) = [] /\ crew (getc s' src) = newcrew s /\
+  chk_self s' (hs s' i) = chk_self s (hs s i) /\ (forall a, chk_cont (getc s' (negb src)) (hs s' i) a = chk_cont (getc s src) (hs s i) a).
+Proof.
+  intros I HC s'. pose proof (inv_crews _ I) as D. destruct (newcrew_gt s) as (G0 & G1).
+  assert (H1 : getc s' (negb src) = getc s src) by (subst s'; destruct src; reflexivity).
+  assert (H2 : hs s' i = hs s i).
+  { subst s'. cbn [step]. unfold do_moveassign; cbv zeta; cbn [fst]. destruct src; cbn [hs getc negb] in *; unfold drop_crew; rewrite HC;
+      [destruct (Nat.eqb_spec (crew (w1 s)) (crew (w0 s)))|destruct (Nat.eqb_spec (crew (w0 s)) (crew (w1 s)))]; congruence. }
+  repeat split; auto.
+  - subst s'; destruct src; reflexivity.
+  - subst s'; destruct src; reflexivity.
+  - rewrite H2. unfold chk_self. rewrite HC. subst s'. cbn [step]. unfold do_moveassign, ver_of_crew; cbv zeta; cbn [fst].
+    remember (newcrew s) as nc eqn:Enc.
+    destruct src; simpl in *;
+      repeat match goal with |- context [Nat.eqb ?x ?y] => destruct (Nat.eqb_spec x y) end; try congruence; try lia; reflexivity.
+  - intros a. rewrite H1, H2. reflexivity.
+Qed.
+Lemma assign_target_handles_dropped k s src i o :
+  Inv s -> (o = OMoveAssign src \/ o = OCopyAssign src) -> hcrew (hs s i) = Some (crew (getc s (negb src))) ->
+  hs (fst (step k s o)) i = hnull.
+Proof.
+  intros I HO HC. destruct HO; subst o; cbn [step]; unfold do_moveassign, do_copyassign; cbv zeta; cbn [fst];
+    destruct src; cbn [hs getc negb] in *; unfold drop_crew; rewrite HC, Nat.eqb_refl; reflexivity.
+Qed.
+(* copy-assignment: the source and its handles are untouched; the destination is a NEW container (fresh cell, version 0) with the same
+   keys, so the source's handles are foreign to it *)
+Lemma copy_assign_source_unchanged k s src i a :
+  Inv s -> hcrew (hs s i) = Some (crew (getc s src)) ->
+  let s' := fst (step k s (OCopyAssign src)) in
+  getc s' src = getc s src /\ hs s' i = hs s i /\ keys (getc s' (negb src)) = keys (getc s src) /\ ver (getc s' (negb src)) = 0%nat /\
+  chk_cont (getc s' (negb src)) (hs s' i) a = false.
+Proof.
+  intros I HC s'. pose proof (inv_crews _ I) as D. destruct (newcrew_gt s) as (G0 & G1).
+  assert (H2 : hs s' i = hs s i).
+  { subst s'. cbn [step]. unfold do_copyassign; cbv zeta; cbn [fst]. destruct src; cbn [hs getc negb] in *; unfold drop_crew; rewrite HC;
+      [destruct (Nat.eqb_spec (crew (w1 s)) (crew (w0 s)))|destruct (Nat.eqb_spec (crew (w0 s)) (crew (w1 s)))]; congruence. }
+  assert (CC : crew (getc s' (negb src)) = newcrew s).
+  { subst s'. cbn [step]. unfold do_copyassign, copy_cont; cbv zeta; cbn [fst]. destruct src; cbn [getc negb w0 w1];
+      [destruct (keys (w1 s))|destruct (keys (w0 s))]; try reflexivity; destruct k; reflexivity. }
+  repeat split; auto.
+  - subst s'; destruct src; reflexivity.
+  - subst s'. cbn [step]. unfold do_copyassign, copy_cont; cbv zeta; cbn [fst]. destruct src; cbn [getc negb w0 w1];
+      [destruct (keys (w1 s)) eqn:E|destruct (keys (w0 s)) eqn:E]; try reflexivity; destruct k; reflexivity.
+  - subst s'. cbn [step]. unfold do_copyassign, copy_cont; cbv zeta; cbn [fst]. destruct src; cbn [getc negb w0 w1];
+      [destruct (keys (w1 s))|destruct (keys (w0 s))]; try reflexivity; destruct k; reflexivity.
+  - rewrite H2. unfold chk_cont. rewrite HC, CC. destruct (Nat.eqb_spec (crew (getc s src)) (newcrew s)) as [E|E]; [|reflexivity].
+    destruct src; simpl in E; lia.
+Qed.
